@@ -68,6 +68,7 @@ def directed_cases(seed: int, tier: str) -> typing.List[dict]:
                 "same-twice": [dict(base), dict(base), dict(base, entry="cli")],
                 "one-call-helper-over-edited-inputs": [{"lang": lang, "entry": "gt"}, {"lang": lang, "entry": "gt", "variant": True}, {"lang": lang, "entry": "gt"}, {"lang": lang, "entry": "gt", "omit_ser": True}],
                 "one-call-helper-other-language-first": [{"lang": LANGS[(li + 1) % 3], "entry": "gt"}, {"lang": lang, "entry": "gt"}, {"lang": "html", "entry": "gt"}, {"lang": lang, "entry": "gt", "omit_ser": True}],
+                "shared-context-alternating-inputs": [dict(base, share_lctx=True, root_pick=0), dict(base, share_lctx=True, root_pick=1, variant=True), dict(base, share_lctx=True, root_pick=0), dict(base, share_lctx=True, root_pick=1), dict(base, share_lctx=True, root_pick=0, variant=True), dict(base, share_lctx=True, root_pick=1)],
                 "template-raises-mid-line-then-retry": [dict(base, abort_at=1, abort_style="stream", abort_file=1, abort_write=3), dict(base), dict(base, abort_at=1, abort_style="stream", abort_file=0, abort_write=1), dict(base, reuse=True)],
                 "abort-mid-file-then-reuse": [dict(base, abort_at=5, abort_style="write"), dict(base, reuse=True), dict(base)],
                 "abort-on-empty-line-then-reuse": [dict(base, omit_ser=True, abort_at=1, abort_style="write", abort_file=0, abort_write=2), dict(base, omit_ser=True, reuse=True), dict(base, omit_ser=True, abort_at=1, abort_style="write", abort_file=1, abort_write=9), dict(base, omit_ser=True, reuse=True)],
@@ -483,6 +484,8 @@ def run_case(case: dict, ctx: dict) -> dict:
         root0 = max(roots, key=lambda x: (len(types_by_root[x]), x))
         for i, t in enumerate(templates):
             op = dict(t)
+            if "root_pick" in op:
+                op["root"] = sorted(roots)[op.pop("root_pick") % len(roots)]
             op.setdefault("root", root0 if r.sub("root", i).chance(3, 4) else r.sub("root", i).choice(roots))
             op["lookups"] = deps_by_root[op["root"]]
             if op.get("templates") and not usertpl.usable_for(op["lang"], op["templates"]):
